@@ -232,6 +232,14 @@ def main(run):
     stats = {"hsig0": 0, "hsig1": 0, "ties": 0, "order_checked": 0, "coq_updates": 0, "oracle_only_updates": 0,
              "near_threshold": 0, "max_cond": 0.0, "rejected_forgetting_rates": 0}
 
+    def impl(fn, what, case):
+        """Call implementation code; an exception is a concrete failing input of its own."""
+        try:
+            return True, fn()
+        except Exception as e:  # noqa
+            run.oracle_violation("%s raised %s: %s" % (what, type(e).__name__, str(e)[:200]), case)
+            return False, None
+
     def add(group, term, case, nontrivial=True):
         terms[group].append(term)
         cases[group].append(case)
@@ -268,9 +276,11 @@ def main(run):
         return kw
 
     def params_case(dim, lam, kw):
-        s = cma.Strategy([0.0] * dim, 1.0, **dict(kw, lambda_=lam))
         case = {"kind": "params", "dim": dim, "lambda_": lam, "kargs": dict(kw)}
         run.note_case(case, True, sample=case if len(cases["params"]) % 211 == 3 else None)
+        ok, s = impl(lambda: cma.Strategy([0.0] * dim, 1.0, **dict(kw, lambda_=lam)), "Strategy(...)", case)
+        if not ok:
+            return None
         P = oracle_params(s, kw, case)
         add("params", "CParams %s %s %s %s %s" % (cnat(dim), cnat(lam), cfloat(P["chiN"]), ckargs(kw), cparams(P)), case)
         return s
@@ -288,14 +298,15 @@ def main(run):
         if rng.random() < 0.7:
             kw["mu"] = rng.randint(1, lam)
         s = params_case(dim, lam, rand_user(kw))
-        if rng.random() < 0.3:
+        if s is not None and rng.random() < 0.3:
             # lambda changes during evolution: computeParams must be called again (docstring)
             s.lambda_ = rng.randint(4, 40)
             if "mu" in kw and kw["mu"] > s.lambda_:
                 s.lambda_ = kw["mu"]
-            s.computeParams(s.params)
             case = {"kind": "params-recomputed", "dim": dim, "lambda_": s.lambda_, "kargs": dict(kw)}
             run.note_case(case)
+            if not impl(lambda: s.computeParams(s.params), "computeParams", case)[0]:
+                continue
             P = oracle_params(s, kw, case, "computeParams after lambda_ changed")
             add("params", "CParams %s %s %s %s %s" % (cnat(dim), cnat(s.lambda_), cfloat(P["chiN"]), ckargs(kw), cparams(P)), case)
 
@@ -338,11 +349,14 @@ def main(run):
     def new_strategy(n, coq, force_kw=None):
         """A strategy inside the domain of the update clauses: 1 - ccov1 - ccovmu > 0 (the old C is not forgotten
         completely) unless mu >= 2 dim; otherwise a rank-deficient C can arise (see design_notes/C13.md)."""
-        while True:
+        for _ in range(50):
             s, kw = new_strategy_any(n, coq, force_kw)
+            if s is None:
+                return None, kw
             if 1.0 - float(s.ccov1) - float(s.ccovmu) >= 0.05 or s.mu >= 2 * n:
                 return s, kw
             stats["rejected_forgetting_rates"] += 1
+        return None, kw
 
     def new_strategy_any(n, coq, force_kw=None):
         kw = {"weights": rng.choice(list(SCHEME))}
@@ -363,9 +377,11 @@ def main(run):
         else:
             centroid = [rng.uniform(-5, 5) for _ in range(n)]
         sigma = rng.choice([rng.uniform(0.1, 3.0), 10.0 ** rng.uniform(-3, 1), 1, 0.5])
-        s = cma.Strategy(centroid, sigma, **kw)
         case = {"kind": "init", "centroid": centroid, "sigma": sigma, "kargs": jsonable(kw)}
         run.note_case(case, True, sample=None)
+        ok, s = impl(lambda: cma.Strategy(centroid, sigma, **kw), "Strategy(...)", case)
+        if not ok:
+            return None, kw
         P = oracle_params(s, kw, case, "__init__")
         S = read_state(s)
         C0 = numpy.array(kw["cmatrix"]) if "cmatrix" in kw else numpy.identity(n)
@@ -402,11 +418,13 @@ def main(run):
                 pop2.reverse()
             else:
                 rng.shuffle(pop2)
-            s2.update(pop2)
+            if not impl(lambda: s2.update(pop2), "update (shuffled population)", case)[0]:
+                s2 = None
         else:
             s2 = None
-        order_in = [id(x) for x in pop]
-        s.update(pop)
+        ids_before = {id(x): i for i, x in enumerate(pop)}
+        if not impl(lambda: s.update(pop), "update", case)[0]:
+            return False
         S1 = read_state(s)
         case["post"] = jsonable(S1)
         if s2 is not None:
@@ -418,6 +436,15 @@ def main(run):
                                      case, observed={"shuffled_post": jsonable(S2)})
         # the published equations
         order = sorted(range(len(pop)), key=lambda i: wv[i], reverse=True)   # stable, best first
+        if not distinct:
+            # with ties "the mu best" is not unique: any best-first arrangement is acceptable.  update sorts the
+            # list it is given in place, so the arrangement the implementation used can be read off the list.
+            try:
+                used = [ids_before[id(x)] for x in pop]
+            except KeyError:
+                used = []
+            if sorted(used) == list(range(len(wv))) and all(wv[used[i]] >= wv[used[i + 1]] for i in range(len(used) - 1)):
+                order = used
         sp = spec_update(P, S, [xs[i] for i in order])
         stats["max_cond"] = max(stats["max_cond"], sp["cond"])
         # own eigendecomposition of C vs the stored one: C^{-1/2} differs by O(eps * cond(C))
@@ -455,11 +482,15 @@ def main(run):
         if coq:
             stats["coq_updates"] += 1
             w, V = numpy.linalg.eigh(S1["C"]) if numpy.all(numpy.isfinite(S1["C"])) else (numpy.zeros(P["dim"]), numpy.identity(P["dim"]))
-            popterm = clist(["(%s, %s)" % (cvec(wv[i]), cvec(xs[i])) for i in range(len(pop))])
+            # distinct fitnesses: the population as passed (the model sorts it); ties: in the best-first arrangement
+            # established above (the model's stable sort leaves it unchanged)
+            feed = range(len(wv)) if distinct else order
+            popterm = clist(["(%s, %s)" % (cvec(wv[i]), cvec(xs[i])) for i in feed])
             small = {k: case[k] for k in ("kind", "objective", "gen", "params", "pre", "wvalues", "xs", "post") if k in case}
             add("update", "CUpdate %s %s %s (%s, %s) %s" % (cparams(P), cstate(S), popterm, cvec(w), cmat(V), cstate(S1)), small)
         else:
             stats["oracle_only_updates"] += 1
+        return True
 
     # ---------------------------------------------------------------- generate, fully checked
     def do_generate(s, icls, coq, meta):
@@ -470,19 +501,23 @@ def main(run):
         def ind_init(a):
             calls.append(numpy.array(a, dtype=float).copy())
             return icls(a)
-        numpy.random.seed(seed)
-        pop = s.generate(ind_init)
-        numpy.random.seed(seed)
-        arz = numpy.random.standard_normal((P["lambda_"], P["dim"]))
         case = dict(meta, kind="generate", seed=seed, params=jsonable(P), pre=jsonable(S))
         run.note_case((meta, seed), True, sample=None)
+        numpy.random.seed(seed)
+        ok, pop = impl(lambda: s.generate(ind_init), "generate", case)
+        if not ok:
+            return None
+        numpy.random.seed(seed)
+        arz = numpy.random.standard_normal((P["lambda_"], P["dim"]))
         xs = [[float(v) for v in ind] for ind in pop]
         ok = (isinstance(pop, list) and len(pop) == P["lambda_"] and all(len(x) == P["dim"] for x in xs)
               and all(type(ind) is icls for ind in pop) and len(calls) == P["lambda_"])
         if not ok:
             run.oracle_violation("generate does not return lambda individuals of the problem dimension built with ind_init",
                                  case, observed={"len": len(pop), "dims": [len(x) for x in xs], "types": [type(i).__name__ for i in pop][:3]})
-            return pop
+            if coq:
+                add("gen", "CGen %s %s %s %s" % (cparams(P), cstate(S), cmat(arz), cmat(xs)), case)
+            return None
         exp = S["centroid"] + S["sigma"] * (arz @ S["BD"].T)
         dev_obs = (numpy.asarray(xs) - S["centroid"])
         dev_exp = S["sigma"] * (arz @ S["BD"].T)
@@ -503,27 +538,51 @@ def main(run):
         for ind in pop:
             ind.fitness.values = f(ind)
 
+    def own_samples(s, icls):
+        """fallback population when generate misbehaved: the harness' own draw from N(m, sigma^2 C)"""
+        S = read_state(s)
+        n = len(S["centroid"])
+        ev, E = numpy.linalg.eigh((S["C"] + S["C"].T) / 2.0)
+        A = E * numpy.sqrt(numpy.maximum(ev, 0.0))
+        z = nprng.standard_normal((int(s.lambda_), n))
+        return [icls(row) for row in S["centroid"] + S["sigma"] * (z @ A.T)]
+
+    def state_usable(s):
+        try:
+            return bool(numpy.all(numpy.isfinite(s.C)) and s.sigma > 0 and numpy.all(numpy.isfinite(s.diagD)) and
+                        numpy.all(numpy.isfinite(s.B)) and numpy.all(numpy.isfinite(s.centroid)) and
+                        numpy.all(numpy.isfinite(s.ps)) and numpy.all(numpy.isfinite(s.pc)) and
+                        float(numpy.min(s.diagD)) > 0 and float(numpy.max(s.diagD) / numpy.min(s.diagD)) < 1e4 and
+                        1e-150 < s.sigma < 1e150)
+        except Exception:  # noqa
+            return False
+
     def one_run(n, coq, gens):
+        try:
+            one_run_(n, coq, gens)
+        except Exception as e:  # noqa  (a mutated implementation may leave attributes of unexpected type/shape)
+            import traceback
+            run.oracle_violation("strategy left in a state the harness cannot read: %s" % type(e).__name__,
+                                 {"kind": "run", "dim": n}, observed=traceback.format_exc()[-1500:])
+
+    def one_run_(n, coq, gens):
         oname, f = rng.choice(OBJECTIVES)
         nobj = 2 if oname == "two" else 1
         weights = tuple(rng.choice([-1.0, -1.0, 1.0, -2.0]) for _ in range(nobj))
         icls = indcls(weights, rng.random() < 0.3)
         s, kw = new_strategy(n, coq)
+        if s is None or not state_usable(s):
+            return
         for g in range(gens):
             meta = {"objective": oname, "fitness_weights": list(weights), "gen": g, "dim": n}
-            if coq and (g < 3 or rng.random() < 0.25):
-                pop = do_generate(s, icls, True, meta)
-            else:
-                pop = do_generate(s, icls, False, meta)
-            if len(pop) != s.lambda_:
-                return
+            pop = do_generate(s, icls, bool(coq and (g < 3 or rng.random() < 0.25)), meta)
+            if pop is None:
+                pop = own_samples(s, icls)
             evaluate(pop, f)
-            if rng.random() < 0.1 and s.mu < s.lambda_:
+            if rng.random() < 0.1 and s.mu < len(pop):
                 # populations larger/smaller than lambda_ are legal as long as len >= mu
                 pop = pop[:rng.randint(s.mu, len(pop))]
-            do_update(s, pop, coq, meta)
-            if not (numpy.all(numpy.isfinite(s.C)) and s.sigma > 0 and numpy.all(numpy.isfinite(s.diagD)) and
-                    float(s.diagD.min()) > 0 and float(s.diagD.max() / s.diagD.min()) < 1e4 and 1e-150 < s.sigma < 1e150):
+            if not do_update(s, pop, coq, meta) or not state_usable(s):
                 return
 
     def gens_draw():
@@ -546,20 +605,29 @@ def main(run):
     # synthetic pre-states: random paths / generation counter, both h_sigma branches
     for _ in range(run.scale(120, 1500)):
         n = rng.randint(2, 8)
-        s, kw = new_strategy(n, False)
+        s, kw = new_strategy(n, True)
+        if s is None:
+            continue
         s.ps = nprng.standard_normal(n) * rng.choice([0.1, 1.0, 1.0, 3.0, 10.0])
         s.pc = nprng.standard_normal(n) * rng.choice([0.0, 0.5, 2.0])
         s.update_count = rng.choice([0, 0, 1, 2, 5, 30])
+        if s is None or not state_usable(s):
+            continue
         oname, f = rng.choice(OBJECTIVES)
         nobj = 2 if oname == "two" else 1
         weights = tuple(rng.choice([-1.0, 1.0]) for _ in range(nobj))
         icls = indcls(weights, rng.random() < 0.3)
         meta = {"objective": oname, "fitness_weights": list(weights), "gen": "synthetic", "dim": n}
-        pop = do_generate(s, icls, False, meta)
-        if len(pop) != s.lambda_:
-            continue
-        evaluate(pop, f)
-        do_update(s, pop, True, meta)
+        try:
+            pop = do_generate(s, icls, False, meta)
+            if pop is None:
+                pop = own_samples(s, icls)
+            evaluate(pop, f)
+            do_update(s, pop, True, meta)
+        except Exception as e:  # noqa
+            import traceback
+            run.oracle_violation("strategy left in a state the harness cannot read: %s" % type(e).__name__,
+                                 {"kind": "synthetic", "dim": n}, observed=traceback.format_exc()[-1500:])
 
     run.extra_cov["c13"] = stats
     for g in ("params", "init", "update", "gen"):
